@@ -305,6 +305,39 @@ def make_machine(ctx):
         return   # would make the binding its own transitive source
       self._mut(("bind", v, d, src, self._n(w)))
 
+    @rule(b=I, k=I, s=srcs)
+    def add_binding_again(self, b, k, s):
+      """Same data at a node where the binding already has an origin, with a
+      further source set (what the VM does when a value is stored twice)."""
+      b = self._b(b)
+      bd = self.w.binds[b]
+      wheres = [o.where for o in bd.origins]
+      if not wheres or bd.data not in DATA:
+        return
+      where = wheres[k % len(wheres)]
+      vi = [i for i, v in enumerate(self.w.vars) if v.id == bd.variable.id]
+      ni = [i for i, n in enumerate(self.w.nodes) if n.id == where.id]
+      if not vi or not ni:
+        return
+      src = self._srcs_lt(s, len(self.w.binds))
+      if any(self.w.binds[i].HasSource(bd) or i == b for i in src):
+        return
+      self._mut(("bind", vi[0], DATA.index(bd.data), src, ni[0]))
+
+    @rule(b=I, k=I, s=srcs)
+    def add_origin_again(self, b, k, s):
+      b = self._b(b)
+      bd = self.w.binds[b]
+      wheres = [o.where for o in bd.origins]
+      if not wheres:
+        return
+      where = wheres[k % len(wheres)]
+      ni = [i for i, n in enumerate(self.w.nodes) if n.id == where.id]
+      src = self._srcs_lt(s, len(self.w.binds))
+      if not ni or any(self.w.binds[i].HasSource(bd) or i == b for i in src):
+        return
+      self._mut(("origin", b, ni[0], src))
+
     @rule(v=I, d=st.integers(0, 2))
     def add_binding_no_origin(self, v, d):
       self._mut(("bind0", self._v(v), d))
@@ -507,8 +540,209 @@ def query_order_exhaustive(ctx, n, chain_only):
         del prog
 
 
+def cond_history_exhaustive(ctx, n, chain_only, stride=1):
+  """All digraphs on n nodes x placements of three source-free bindings (two
+  of one variable, one of another) x every (node, binding) condition.  One
+  long-lived Program goes through the history
+      all queries; node.condition = b; all queries (both orders);
+      node.condition = None; all queries
+  and every answer is compared with a Program built from scratch in the
+  state of that moment and asked only that query."""
+  import itertools
+  from props import c07_solver
+  from vlib import tg
+  pairs = [(a, b) for a in range(n) for b in range(n) if a != b]
+  chain = {(i, i + 1) for i in range(n - 1)}
+  free = [p for p in pairs if not (chain_only and p in chain)]
+  sets_ = [(0,), (1,), (2,), (0, 2), (1, 2), (0, 1)]
+  qs = [(node, S) for node in range(n) for S in sets_]
+  idx = 0
+  for mask in range(1 << len(free)):
+    edges = [list(p) for p in sorted(chain)] if chain_only else []
+    edges += [list(free[i]) for i in range(len(free)) if mask >> i & 1]
+    for w0, w1, w2 in itertools.product(range(n), repeat=3):
+      if w0 >= w1:
+        continue
+      base = {"n": n, "edges": edges, "nv": 2,
+              "bindings": [[0, [[w0, [[]]]]], [0, [[w1, [[]]]]],
+                           [1, [[w2, [[]]]]]]}
+      want0 = None
+      for c, k in itertools.product(range(n), range(3)):
+        idx += 1
+        if idx % (ctx.nshards * stride) != ctx.shard * stride:
+          continue
+        with_c = dict(base, conds={c: k})
+        cls = c07_solver.graph_class(with_c)
+        if want0 is None:
+          want0 = {q: c07_solver.ask_fresh(base, q[0], q[1]) for q in qs}
+        want1 = {q: c07_solver.ask_fresh(with_c, q[0], q[1]) for q in qs}
+        for order_name, order in (("fwd", qs), ("rev", qs[::-1])):
+          prog, nodes, _, binds = tg.build(base)
+          hist = []
+          phases = (("before", want0, None), ("set", want1, k),
+                    ("cleared", want0, None))
+          for phase, want, cond in phases:
+            if phase != "before":
+              nodes[c].condition = None if cond is None else binds[cond]
+              hist.append(["cond", c, cond])
+            for node, S in order:
+              live = nodes[node].HasCombination([binds[i] for i in S])
+              hist.append(["has", node, list(S)])
+              ctx.case(key=("CH", n, mask, w0, w1, w2, c, k, order_name,
+                            len(hist)),
+                       nontrivial=phase != "before",
+                       sample=("%s | n%d.condition=b%d, %s order, phase %s: "
+                               "n%d %s" % (c07_solver.fmt_spec(base), c, k,
+                                           order_name, phase, node, list(S))
+                               if idx % 4999 == 0 and node == n - 1 and
+                               phase == "set" and S == (0, 2) else None),
+                       classes=["CH:" + cls, "CH-phase:" + phase])
+              if live != want[(node, S)]:
+                ctx.check(False, "stale-or-order-dependent-answer-around-"
+                          "condition-change:" + cls,
+                          "phase %s: HasCombination(%s) at n%d = %s on the "
+                          "long-lived Program, %s on a fresh one; history %s"
+                          % (phase, list(S), node, live, want[(node, S)],
+                             hist[-12:]),
+                          {"spec": base, "cond_history": hist})
+          del prog
+
+
+def source_history_exhaustive(ctx, n, stride=1):
+  """All digraphs on n nodes; variable 0 has bindings b0@w0 and b1@w1,
+  variable 1 has b2@w2 with one source set from {{}, {b0}, {b1}}.  History:
+  all queries; b2 gets a further source set at w2 or at another node - through
+  Variable.AddBinding(same data, ...) or Binding.AddOrigin(...); all queries.
+  Each answer is compared with a Program built from scratch in that state."""
+  import itertools
+  from props import c07_solver
+  from vlib import tg
+  pairs = [(a, b) for a in range(n) for b in range(n) if a != b]
+  sets_ = [(0,), (1,), (2,), (0, 2), (1, 2), (0, 1)]
+  qs = [(node, S) for node in range(n) for S in sets_]
+  srcs = [[], [0], [1]]
+  idx = 0
+  for mask in range(1 << len(pairs)):
+    edges = [list(pairs[i]) for i in range(len(pairs)) if mask >> i & 1]
+    for w0, w1, w2, s1 in itertools.product(range(n), range(n), range(n),
+                                            range(3)):
+      base = {"n": n, "edges": edges, "nv": 2,
+              "bindings": [[0, [[w0, [[]]]]], [0, [[w1, [[]]]]],
+                           [1, [[w2, [srcs[s1]]]]]]}
+      want0 = None
+      for w3, s2, api in itertools.product(range(n), range(3),
+                                           ("AddBinding", "AddOrigin")):
+        if s2 == s1 and w3 == w2:
+          continue
+        idx += 1
+        if idx % (ctx.nshards * stride) != ctx.shard * stride:
+          continue
+        after = dict(base, late=[[2, w3, srcs[s2]]])
+        cls = c07_solver.graph_class(base)
+        if want0 is None:
+          want0 = {q: c07_solver.ask_fresh(base, q[0], q[1]) for q in qs}
+        want1 = {q: c07_solver.ask_fresh(after, q[0], q[1]) for q in qs}
+        prog, nodes, vars_, binds = tg.build(base)
+        hist = []
+        for phase, want in (("before", want0), ("after", want1)):
+          if phase == "after":
+            ss = [binds[i] for i in srcs[s2]]
+            if api == "AddBinding":
+              b = vars_[1].AddBinding(binds[2].data, ss, nodes[w3])
+              assert b.id == binds[2].id
+            else:
+              binds[2].AddOrigin(nodes[w3], ss)
+            hist.append([api, 2, w3, srcs[s2]])
+          for node, S in qs:
+            live = nodes[node].HasCombination([binds[i] for i in S])
+            hist.append(["has", node, list(S)])
+            ctx.case(key=("SH", n, mask, w0, w1, w2, s1, w3, s2, api,
+                          len(hist)),
+                     nontrivial=phase == "after",
+                     sample=("%s | then %s(b2, n%d, %s): n%d %s" % (
+                         c07_solver.fmt_spec(base), api, w3, srcs[s2], node,
+                         list(S)) if idx % 7919 == 0 and phase == "after" and
+                             node == n - 1 and S == (1, 2) else None),
+                     classes=["SH:" + cls, "SH-same-node:%s" % (w3 == w2),
+                              "SH-api:" + api])
+            if live != want[(node, S)]:
+              ctx.check(False, "stale-answer-after-further-source-set:" + api,
+                        "phase %s: HasCombination(%s) at n%d = %s on the "
+                        "long-lived Program, %s on a fresh one; %s; history %s"
+                        % (phase, list(S), node, live, want[(node, S)],
+                           c07_solver.fmt_spec(base), hist[-8:]),
+                        {"spec": base, "source_history": hist})
+        del prog
+
+
+def cond_history_search(ctx, n_examples):
+  """Random larger graphs (sources, several origins): a generated sequence of
+  condition assignments / removals interleaved with queries."""
+  from hypothesis import strategies as st
+  from props import c07_solver
+  from vlib import tg
+  from vlib.run import hyp_run
+
+  @st.composite
+  def cases(draw):
+    spec, _ = draw(c07_solver.spec_strategy(
+        draw(st.sampled_from(["acyclic", "cond", "cyclic"]))))
+    spec.pop("conds", None)
+    nb = len(spec["bindings"])
+    q = st.tuples(st.just("has"), st.integers(0, spec["n"] - 1),
+                  st.lists(st.integers(0, nb - 1), min_size=1, max_size=2,
+                           unique=True).map(sorted))
+    m = st.tuples(st.just("cond"), st.integers(0, spec["n"] - 1),
+                  st.one_of(st.none(), st.integers(0, nb - 1)))
+    steps = draw(st.lists(st.one_of(q, q, q, m), min_size=4, max_size=30))
+    return spec, steps
+
+  def body(x):
+    spec, steps = x
+    prog, nodes, _, binds = tg.build(spec)
+    cur = dict(spec, conds={})
+    hist = []
+    seen_cond = False
+    for st_ in steps:
+      hist.append(list(st_))
+      if st_[0] == "cond":
+        _, c, k = st_
+        nodes[c].condition = None if k is None else binds[k]
+        conds = dict(cur["conds"])
+        if k is None:
+          conds.pop(c, None)
+        else:
+          conds[c] = k
+        cur = dict(cur, conds=conds)
+        seen_cond = True
+        continue
+      _, node, S = st_
+      live = nodes[node].HasCombination([binds[i] for i in S])
+      want = c07_solver.ask_fresh(cur, node, S)
+      cls = c07_solver.graph_class(cur)
+      ctx.case(key=(c07_solver.tg_key(spec), repr(hist)), nontrivial=seen_cond,
+               sample=("%s | %s" % (c07_solver.fmt_spec(spec), hist[-6:])
+                       if seen_cond and len(hist) > 12 else None),
+               classes=["CS:" + cls])
+      ctx.check(live == want, "stale-or-order-dependent-answer-around-"
+                "condition-change:" + cls,
+                "HasCombination(%s) at n%d = %s on the long-lived Program, %s "
+                "on a fresh one; history %s" % (S, node, live, want, hist[-12:]),
+                {"spec": spec, "cond_history": hist})
+    del prog
+
+  hyp_run(ctx, cases(), body, n_examples, label="CS")
+
+
 def run_shard(ctx):
   boot.ensure()
+  cond_history_exhaustive(ctx, 3, chain_only=False)
+  if ctx.quick():
+    cond_history_exhaustive(ctx, 4, chain_only=True, stride=40)
+  else:
+    cond_history_exhaustive(ctx, 4, chain_only=True)
+  cond_history_search(ctx, 150 if ctx.quick() else 6000)
+  source_history_exhaustive(ctx, 3, stride=3 if ctx.quick() else 1)
   query_order_exhaustive(ctx, 3, chain_only=False)
   query_order_exhaustive(ctx, 4, chain_only=True)
   if not ctx.quick():
@@ -532,6 +766,55 @@ def check_ops(ops):
 
 def replay(ctx, case):
   ctx.case(key=repr(case), nontrivial=True)
+  if "source_history" in case:
+    from props import c07_solver
+    from vlib import tg
+    spec = case["spec"]
+    prog, nodes, vars_, binds = tg.build(spec)
+    cur = dict(spec)
+    for st_ in case["source_history"]:
+      if st_[0] in ("AddBinding", "AddOrigin"):
+        api, b, w, ss = st_
+        srcb = [binds[i] for i in ss]
+        if api == "AddBinding":
+          vars_[spec["bindings"][b][0]].AddBinding(binds[b].data, srcb,
+                                                  nodes[w])
+        else:
+          binds[b].AddOrigin(nodes[w], srcb)
+        cur = dict(cur, late=list(cur.get("late") or []) + [[b, w, ss]])
+        continue
+      _, node, S = st_
+      live = nodes[node].HasCombination([binds[i] for i in S])
+      want = c07_solver.ask_fresh(cur, node, S)
+      if live != want:
+        raise Violation("stale-answer-after-further-source-set:" + api,
+                        "n%d %s: %s vs fresh %s" % (node, S, live, want), case)
+    return
+  if "cond_history" in case:
+    from props import c07_solver
+    from vlib import tg
+    spec = case["spec"]
+    prog, nodes, _, binds = tg.build(spec)
+    cur = dict(spec, conds=dict(spec.get("conds") or {}))
+    for st_ in case["cond_history"]:
+      if st_[0] == "cond":
+        _, c, k = st_
+        nodes[c].condition = None if k is None else binds[k]
+        conds = dict(cur["conds"])
+        if k is None:
+          conds.pop(c, None)
+        else:
+          conds[c] = k
+        cur = dict(cur, conds=conds)
+        continue
+      _, node, S = st_
+      live = nodes[node].HasCombination([binds[i] for i in S])
+      want = c07_solver.ask_fresh(cur, node, S)
+      if live != want:
+        raise Violation("stale-or-order-dependent-answer-around-condition-"
+                        "change:" + c07_solver.graph_class(cur),
+                        "n%d %s: %s vs fresh %s" % (node, S, live, want), case)
+    return
   if "queries" in case:
     from props import c07_solver
     from vlib import tg
